@@ -3,8 +3,10 @@
 
    Input: statements in the form the code generator reads them (after XConstProp.front).
    Fragment: skip, stop, return e, if (with xcmp's three shapes for skip branches), while, sequences, assignment
-   to a global, a local or a value formal, the system calls exit `0(e)` and put `1(e, s)` as statements, over the
-   expressions of XCodegenExpr.v.  Not in the fragment: procedure/function calls, get, array assignment.
+   to a global, a local or a value formal, assignment to an element of an array in scope, the system calls exit
+   `0(e)` and put `1(e, s)` as statements, procedure-call statements and function calls as whole right-hand sides
+   (relative to call_spec; XCodegenCall.v discharges it), over the expressions of XCodegenExpr.v.
+   Not in the fragment: calls inside operands and actuals, get, array formals.
    The code is the one handed to OptimiseDirectives (before its three peephole rewrites).
 
    stmt_correct: if XSem executes the statement from a state related to the machine memory (Rel: protected words
@@ -13,7 +15,7 @@
      - ends just behind the code in a related state            (the statement terminates normally), or
      - ends at the procedure's exit label with the value in areg (return), or
      - performs the exit system call with the spec's exit value (stop / exit). *)
-From Coq Require Import ZArith List String Bool Lia Wf_nat.
+From Coq Require Import ZArith List String Bool Lia Wf_nat FMapPositive.
 From HexVerif Require Import WMap Isa XAst XSem XCodegenIsa XCodegenInv XCodegenExpr.
 Import ListNotations.
 Local Open Scope Z_scope.
@@ -32,17 +34,24 @@ Section Codegen.
   Variable venv : string -> option loc.
   Variable pool : Z -> option Z.
   Variables size nslots : Z.
+  Variable aenv : string -> option loc.   (* the arrays in scope *)
   Variable off0 : Z.            (* frame offset of the first temporary (after the locals) *)
   Variable og : Z.              (* words of the frame's outgoing area (link, return value, actuals) *)
   Variable exitl : label.       (* the procedure's exit label *)
 
-  Definition cge (e : expr) (n : label) : option (list instr * label) := cg venv pool size nslots e RA n off0.
+  Definition cge (e : expr) (n : label) : option (list instr * label) := cg venv pool size nslots aenv e RA n off0.
 
+  (* an actual: an expression of the fragment, or the name of an array in scope (passed by the address of its cells) *)
+  Definition carg (e : expr) (n : label) : option (list instr * label) :=
+    match e with
+    | EVar a => match aenv a with Some l => Some (gen_var RA l, n) | None => cge e n end
+    | _ => cge e n
+    end.
   (* loadActuals for call-free actuals: actual i goes to the outgoing word sp + k + i *)
   Fixpoint cargs (args : list expr) (k : Z) (n : label) : option (list instr * label) :=
     match args with
     | [] => Some ([], n)
-    | e :: r => do (c, n1) <- cge e n; do (cr, n2) <- cargs r (k + 1) n1; Some (c ++ [LDBM 1; STAI k] ++ cr, n2)
+    | e :: r => do (c, n1) <- carg e n; do (cr, n2) <- cargs r (k + 1) n1; Some (c ++ [LDBM 1; STAI k] ++ cr, n2)
     end.
 
   (* the right-hand side of an assignment / the value of a return: an expression of the fragment, or a call of a
@@ -86,6 +95,14 @@ Section Codegen.
            | x :: r => do (c1, n1) <- cs x n; do (c2, n2) <- go r n1; Some (c1 ++ c2, n2)
            end) ss n
     | SAssign x e => do l <- venv x; do (c, n1) <- cgx e n; Some (c ++ store_var l, n1)
+    | SAssignSub a i e =>
+        (* the element's address is saved in the first temporary while the value is computed *)
+        do l <- aenv a;
+        if (0 <=? off0) && (off0 <? nslots) then
+          do (ci, n1) <- cge i n;
+          do (ce, n2) <- cg venv pool size nslots aenv e RA n1 (off0 + 1);
+          Some (ci ++ gen_var RB l ++ [ADD; LDBM 1; STAI (size - 1 - off0)] ++ ce ++ [LDBM 1; LDBI (size - 1 - off0); STAI 0], n2)
+        else None
     | SCall p args =>
         (* genProcCall: the actuals, then branch and link *)
         do pi <- pinfo p;
@@ -134,11 +151,25 @@ Definition prologue (size : Z) : list instr :=
 Definition epilogue (isf : bool) (size : Z) : list instr :=
   [LABEL 0] ++ (if isf then [LDBM 1; STAI (size + 1)] else [LDBM 1]) ++
   (if 0 <? size then [LDAC size; ADD; STAM 1] else []) ++ [LDBI size; BRB].
-Definition cproc_lowered (pinfo : string -> option pframe) (gaddr : string -> option Z) (pool : Z -> option Z) (p : proc) (size og : Z) : option (list instr) :=
-  do (c, _) <- cs pinfo (frame_venv gaddr p size) pool size size (first_temp p) og 0 (body p) 1;
+(* the arrays a procedure body sees: its array formals (the frame word of formal i holds the address of the cells of
+   the array passed) and the global arrays whose name no local or formal hides *)
+Definition is_arr_formal (f : formal) : bool := match f with FArray _ => true | _ => false end.
+Definition frame_aenv (aaddr : string -> option Z) (p : proc) (size : Z) : string -> option loc :=
+  fun x =>
+    match index_of x (map local_decl_name (locals p)) 0 with
+    | Some _ => None
+    | None =>
+        match index_of x (map formal_nm (formals p)) 0 with
+        | Some i => if existsb (fun f => String.eqb x (formal_nm f) && is_arr_formal f) (formals p)
+                    then Some (LFrame (size + (if is_func p then 2 else 1) + i)) else None
+        | None => match aaddr x with Some w => Some (LGlobal w) | None => None end
+        end
+    end.
+Definition cproc_lowered (pinfo : string -> option pframe) (gaddr aaddr : string -> option Z) (pool : Z -> option Z) (p : proc) (size og : Z) : option (list instr) :=
+  do (c, _) <- cs pinfo (frame_venv gaddr p size) pool size size (frame_aenv aaddr p size) (first_temp p) og 0 (body p) 1;
   Some (prologue size ++ c ++ epilogue (is_func p) size).
-Definition cproc (pinfo : string -> option pframe) (gaddr : string -> option Z) (pool : Z -> option Z) (p : proc) (size og : Z) : option (list instr) :=
-  do c <- cproc_lowered pinfo gaddr pool p size og; Some (peephole (List.length c) c).
+Definition cproc (pinfo : string -> option pframe) (gaddr aaddr : string -> option Z) (pool : Z -> option Z) (p : proc) (size og : Z) : option (list instr) :=
+  do c <- cproc_lowered pinfo gaddr aaddr pool p size og; Some (peephole (List.length c) c).
 
 (* ---------------------------------------------------------------- correctness *)
 Definition wr_ev (p : Z * Z) : event := Write (snd p) (fst p).
@@ -148,6 +179,9 @@ Section Correct.
   Variable Fr : Z -> Prop.              (* the free stack below the frame (used by callees) *)
   Variable Dq : nat -> Prop.            (* an invariant of the call depth (the stack budget), handed on to callees *)
   Variable venv : string -> option loc.
+  Variable aenv : string -> option loc.     (* the arrays in scope: the word that holds the address of the cells *)
+  Variable garr : string -> bool.           (* the global arrays *)
+  Variables abase alen_of : string -> Z.    (* where the cells of a global array are, and how many *)
   Variable pool : Z -> option Z.
   Variables size nslots off0 og : Z.
   Variable exitl : label.
@@ -173,6 +207,16 @@ Section Correct.
   Hypothesis Hvar : forall x l, venv x = Some l ->
     in_mem (addr_of l) = true /\ ~ scratch (addr_of l) /\ ~ P (addr_of l) /\ addr_of l <> 1.
   Hypothesis Hinj : forall x y lx ly, venv x = Some lx -> venv y = Some ly -> x <> y -> addr_of lx <> addr_of ly.
+  (* arrays: the word of the name and the cells are ordinary memory (unprotected, not scratch, not word 1), apart
+     from each other and from the variables; the cells of different arrays and elements are different words *)
+  Definition cell_of (c : Z) : Prop := exists g i, garr g = true /\ 0 <= i < alen_of g /\ c = abase g + i.
+  Hypothesis Hawd : forall a l, aenv a = Some l ->
+    in_mem (waddr sp l) = true /\ ~ scratch (waddr sp l) /\ ~ P (waddr sp l) /\ waddr sp l <> 1 /\ ~ cell_of (waddr sp l) /\
+    (forall x lx, venv x = Some lx -> addr_of lx <> waddr sp l).
+  Hypothesis Hcell : forall c, cell_of c ->
+    in_mem c = true /\ ~ scratch c /\ ~ P c /\ c <> 1 /\ (forall x lx, venv x = Some lx -> addr_of lx <> c).
+  Hypothesis Hcinj : forall g g' i i', garr g = true -> garr g' = true -> 0 <= i < alen_of g -> 0 <= i' < alen_of g' ->
+    abase g + i = abase g' + i' -> g = g' /\ i = i'.
   (* the procedures that can be called: their entry labels lie in the address space, and no constant bears their name *)
   Hypothesis Hentry : forall p pi, pinfo p = Some pi -> 0 <= lab (pf_entry pi) < W.
   Hypothesis Hcallt : forall p pi, pinfo p = Some pi -> assoc p (g_vals ge) = None.
@@ -180,12 +224,24 @@ Section Correct.
   (* no local constant of the running frame bears the name of a callable procedure (such a name would denote a
      system call: XSem.call_target) *)
   Definition novals (st : state) : Prop := forall p pi, pinfo p = Some pi -> assoc p (f_vals (top st)) = None.
+  (* the arrays.  Names: a name in scope denotes a global array g of the state (XCodegenExpr.resolves: a global array
+     no local name hides, or an array formal bound to g) and its word holds the address of g's cells; a name that is
+     is not a formal denotes the global array of that name.  Cells: a global array is no variable or constant (so its
+     name evaluates to the array), has its length, and every assigned element is in its cell *)
+  Definition arrs_ok (st : state) (m : WMap.t) : Prop :=
+    (forall a l, aenv a = Some l ->
+       exists g, resolves st a g /\ garr g = true /\ rd m (waddr sp l) = abase g /\ (forall w, l = LGlobal w -> g = a)) /\
+    (forall g, garr g = true ->
+       assoc g (g_vals ge) = None /\ assoc g (gvars st) = None /\
+       exists ar, assoc g (garrs st) = Some ar /\ alen ar = alen_of g /\
+         forall i n, 0 <= i < alen ar -> PositiveMap.find (cell i) (acells ar) = Some (Vint n) ->
+                     in_int n = true /\ rd m (abase g + i) = n mod W).
   Definition Rel (st : state) (m : WMap.t) : Prop :=
-    Cm m /\ rd m 1 = sp /\ vars_ok venv ge sp m st /\ (stk st <> [] /\ novals st) /\ Dq (f_depth (top st)).
+    Cm m /\ rd m 1 = sp /\ (vars_ok venv ge sp m st /\ arrs_ok st m) /\ (stk st <> [] /\ novals st) /\ Dq (f_depth (top st)).
 
   (* what a statement adds to the spec state besides variables: outputs; nothing else *)
   Definition post (st st' : state) (outs : list (Z * Z)) : Prop :=
-    out_rev st' = rev outs ++ out_rev st /\ input st' = input st /\ ncons st' = ncons st /\ garrs st' = garrs st /\
+    out_rev st' = rev outs ++ out_rev st /\ input st' = input st /\ ncons st' = ncons st /\
     tl (stk st') = tl (stk st) /\ f_depth (top st') = f_depth (top st).
 
   Lemma post_refl st : post st st []. Proof. repeat split. Qed.
@@ -193,19 +249,19 @@ Section Correct.
   Proof. intros (_ & Hk & Ha & Ho & Hi & Hn). unfold post, top. rewrite Hk. repeat split; assumption. Qed.
   Lemma post_trans a b c o1 o2 : post a b o1 -> post b c o2 -> post a c (o1 ++ o2).
   Proof.
-    intros (H1 & H2 & H3 & H4 & H5 & H6) (G1 & G2 & G3 & G4 & G5 & G6). repeat split; try congruence.
+    intros (H1 & H2 & H3 & H5 & H6) (G1 & G2 & G3 & G5 & G6). repeat split; try congruence.
     rewrite G1, H1, rev_app_distr, app_assoc. reflexivity.
   Qed.
 
   (* when the program stops (exit), only the outputs, the input position and the arrays are compared: the
      stack of the spec state is whatever it was at the exit *)
   Definition hpost (st st' : state) (outs : list (Z * Z)) : Prop :=
-    out_rev st' = rev outs ++ out_rev st /\ input st' = input st /\ ncons st' = ncons st /\ garrs st' = garrs st.
+    out_rev st' = rev outs ++ out_rev st /\ input st' = input st /\ ncons st' = ncons st.
   Lemma post_hpost st st' o : post st st' o -> hpost st st' o.
-  Proof. intros (H1 & H2 & H3 & H4 & _). exact (conj H1 (conj H2 (conj H3 H4))). Qed.
+  Proof. intros (H1 & H2 & H3 & _). exact (conj H1 (conj H2 H3)). Qed.
   Lemma post_hpost_trans a b c o1 o2 : post a b o1 -> hpost b c o2 -> hpost a c (o1 ++ o2).
   Proof.
-    intros (H1 & H2 & H3 & H4 & _) (G1 & G2 & G3 & G4). repeat split; try congruence.
+    intros (H1 & H2 & H3 & _) (G1 & G2 & G3). repeat split; try congruence.
     rewrite G1, H1, rev_app_distr, app_assoc. reflexivity.
   Qed.
 
@@ -224,21 +280,74 @@ Section Correct.
       pose proof (Hm x (LFrame k) Hx) as Hq. cbn [addr_of] in Hq. rewrite Hq. exact F.
   Qed.
 
+  Lemma arrs_ok_same st st' m : same_store st st' -> arrs_ok st m -> arrs_ok st' m.
+  Proof.
+    intros Hss [H1 H2]. pose proof Hss as (Hg & Hs & Ha & _). split.
+    - intros a l Hal. destruct (H1 a l Hal) as (g & G1 & G2 & G3 & G4). exists g.
+      split; [exact (resolves_same _ _ _ _ Hss G1)|]. split; [exact G2|]. split; [exact G3 | exact G4].
+    - intros g Hg0. destruct (H2 g Hg0) as (Kv & Kg & ar & G1 & G2). split; [exact Kv|]. split; [rewrite Hg; exact Kg|].
+      exists ar. rewrite Ha. exact (conj G1 G2).
+  Qed.
+  (* the memory may change anywhere but in the words of the arrays *)
+  Lemma arrs_ok_mem st m m' :
+    (forall a l, aenv a = Some l -> rd m' (waddr sp l) = rd m (waddr sp l)) ->
+    (forall c, cell_of c -> rd m' c = rd m c) -> arrs_ok st m -> arrs_ok st m'.
+  Proof.
+    intros Hw Hc [H1 H2]. split.
+    - intros a l Hal. destruct (H1 a l Hal) as (g & G1 & G2 & G3 & G4). exists g.
+      split; [exact G1|]. split; [exact G2|]. split; [rewrite (Hw a l Hal); exact G3 | exact G4].
+    - intros g Hg. destruct (H2 g Hg) as (Kv & Kg & ar & G1 & G2 & G3). split; [exact Kv|]. split; [exact Kg|].
+      exists ar. split; [exact G1|]. split; [exact G2|].
+      intros i n Hi Hf. destruct (G3 i n Hi Hf) as [K1 K2]. split; [exact K1|]. rewrite Hc; [exact K2|].
+      exists g, i. split; [exact Hg|]. split; [rewrite <- G2; exact Hi | reflexivity].
+  Qed.
+  (* what the expression theorem needs *)
+  Lemma arrs_arrays st m : arrs_ok st m -> arrays_ok size nslots aenv sp off0 m st.
+  Proof.
+    intros [H1 H2] a l Hal. destruct (H1 a l Hal) as (g & G1 & G2 & G3 & _). destruct (H2 g G2) as (_ & _ & ar & K1 & K2 & K3).
+    exists g, ar, (abase g). split; [exact G1|]. split; [exact K1|]. split; [exact G3|]. split; [|exact K3].
+    intros i Hi. assert (Hc : cell_of (abase g + i)) by (exists g, i; split; [exact G2|]; split; [rewrite <- K2; exact Hi | reflexivity]).
+    destruct (Hcell _ Hc) as (C1 & C2 & _). split; [exact C1|]. intros Ht. apply C2. left. exact Ht.
+  Qed.
+
+  (* the state may change anywhere but in the arrays and in what the array names denote *)
+  Lemma arrs_ok_state st st' m :
+    garrs st' = garrs st -> f_vals (top st') = f_vals (top st) ->
+    (forall a l, aenv a = Some l -> assoc a (f_vars (top st')) = assoc a (f_vars (top st))) ->
+    (forall a, assoc a (gvars st) = None -> assoc a (gvars st') = None) ->
+    arrs_ok st m -> arrs_ok st' m.
+  Proof.
+    intros Hga Hfv Hfa Hgv [H1 H2]. split.
+    - intros a l Hal. destruct (H1 a l Hal) as (g & G1 & G2 & G3 & G4). exists g.
+      split; [unfold resolves in *; rewrite (Hfa a l Hal), Hfv, Hga; exact G1|]. split; [exact G2|]. split; [exact G3 | exact G4].
+    - intros g Hg. destruct (H2 g Hg) as (Kv & Kg & K). split; [exact Kv|]. split; [exact (Hgv g Kg)|]. rewrite Hga. exact K.
+  Qed.
+  Lemma assoc_update_none {A} x y (v : A) l : assoc y l = None -> assoc y (update x v l) = None.
+  Proof.
+    induction l as [|[z w] r IH]; cbn [assoc update]; [trivial|].
+    destruct (String.eqb y z) eqn:Ey; [discriminate|]. intros H.
+    destruct (String.eqb x z) eqn:Ex; cbn [assoc]; rewrite Ey; [exact H | exact (IH H)].
+  Qed.
+
   Lemma Rel_same st st' m : same_store st st' -> Rel st m -> Rel st' m.
   Proof.
-    intros Hs (A & B & D & E & Q). split; [exact A|]. split; [exact B|]. split; [eapply vars_ok_same; eassumption|].
+    intros Hs (A & B & [D D'] & E & Q). split; [exact A|]. split; [exact B|].
+    split; [split; [eapply vars_ok_same; eassumption | eapply arrs_ok_same; eassumption]|].
     destruct Hs as (_ & Hk & _). unfold novals, top in *. rewrite Hk. exact (conj E Q).
   Qed.
 
   (* changes confined to temporaries and the outgoing area keep the relation *)
   Lemma Rel_scratch st m m' : (forall a, 0 <= a -> ~ scratch a -> rd m' a = rd m a) -> Rel st m -> Rel st m'.
   Proof.
-    intros Hm (A & B & D & E). split; [|split; [|split; [|exact E]]].
+    intros Hm (A & B & [D D'] & E). split; [|split; [|split; [split|exact E]]].
     - intros a Ha HP. rewrite Hm; [apply A; assumption | exact Ha|].
       intros [Ht|[Ho|Hf]]; [exact (HT_P a Ht HP) | exact (proj1 (proj2 (HO a Ho)) HP) | exact (proj1 (HF a Hf) HP)].
     - rewrite Hm; [exact B | lia|]. intros [Ht|[Ho|Hf]]; [exact (HT_1 Ht) | exact (proj1 (proj2 (proj2 (HO 1 Ho))) eq_refl) | exact (proj2 (HF 1 Hf) eq_refl)].
     - apply (vars_ok_mem st m m'); [|exact D]. intros x l Hx. destruct (Hvar x l Hx) as (Hin & Hns & _).
       apply Hm; [exact (proj1 (in_mem_range _ Hin)) | exact Hns].
+    - apply (arrs_ok_mem st m m'); [| |exact D'].
+      + intros a l Hal. destruct (Hawd a l Hal) as (Hin & Hns & _). apply Hm; [exact (proj1 (in_mem_range _ Hin)) | exact Hns].
+      + intros c Hc. destruct (Hcell c Hc) as (Hin & Hns & _). apply Hm; [exact (proj1 (in_mem_range _ Hin)) | exact Hns].
   Qed.
 
   Lemma keeps_scratch off m m' : off0 <= off -> keeps size nslots sp off m m' ->
@@ -247,27 +356,40 @@ Section Correct.
     intros Ho Hk a Ha Hn. apply Hk; [exact Ha|]. intros Hr. apply Hn. left. unfold T. unfold tlo, fb in *. lia.
   Qed.
 
-  (* running the code of an expression of the fragment *)
+  (* running the code of an expression of the fragment, with the temporaries from frame offset off on *)
+  Lemma run_expr_off off e n c n1 f st v s m :
+    off0 <= off -> cg venv pool size nslots aenv e RA n off = Some (c, n1) -> eval f ge e st = Ret v s -> Rel st m ->
+    same_store st s /\
+    exists z, v = Vint z /\ in_int z = true /\
+      forall pos nxt a b inp, code_at Cm lab pos c nxt -> 0 <= pos -> nxt < W ->
+      exists b' m', taus inp (mk pos a b 0 m) (mk nxt (z mod W) b' 0 m') /\ Rel st m' /\
+                    keeps size nslots sp off m m'.
+  Proof.
+    intros Hoff Hc He (A & B & [D D'] & E).
+    assert (Hglob : forall x a, venv x = Some (LGlobal a) -> in_mem a = true /\ ~ Tm a).
+    { intros x a Hx. destruct (Hvar x _ Hx) as (H1 & H2 & _). cbn [addr_of] in *. split; [exact H1|]. intros Ht. apply H2. left. exact Ht. }
+    assert (Hframe : forall x k, venv x = Some (LFrame k) -> in_mem (sp + k) = true /\ ~ Tm (sp + k)).
+    { intros x k Hx. destruct (Hvar x _ Hx) as (H1 & H2 & _). cbn [addr_of] in *. split; [exact H1|]. intros Ht. apply H2. left. exact Ht. }
+    assert (Harr : forall a l, aenv a = Some l -> in_mem (waddr sp l) = true /\ ~ Tm (waddr sp l)).
+    { intros a l Hal. destruct (Hawd a l Hal) as (H1 & H2 & _). split; [exact H1|]. intros Ht. apply H2. left. exact Ht. }
+    destruct (expr_runs venv pool size nslots aenv ge P m0 lab sp off0 m A B HT_mem HT_P HT_1 Hpool Hglob Hframe Harr
+                        e n off c n1 Hc Hoff f st v s He D (arrs_arrays st m D')) as [Hss (z & Hz & Hr & Hrun)].
+    split; [exact Hss|]. exists z. repeat split; try assumption.
+    intros pos nxt a b inp Hca Hp Hn. destruct (Hrun pos nxt a b inp Hca Hp Hn) as (b' & m' & Ht & Hk).
+    exists b', m'. split; [exact Ht|]. split; [|exact Hk].
+    apply (Rel_scratch st m m'); [|exact (conj A (conj B (conj (conj D D') E)))]. apply (keeps_scratch off); [exact Hoff | exact Hk].
+  Qed.
   Lemma run_expr e n c n1 f st v s m :
-    cge venv pool size nslots off0 e n = Some (c, n1) -> eval f ge e st = Ret v s -> Rel st m ->
+    cge venv pool size nslots aenv off0 e n = Some (c, n1) -> eval f ge e st = Ret v s -> Rel st m ->
     same_store st s /\
     exists z, v = Vint z /\ in_int z = true /\
       forall pos nxt a b inp, code_at Cm lab pos c nxt -> 0 <= pos -> nxt < W ->
       exists b' m', taus inp (mk pos a b 0 m) (mk nxt (z mod W) b' 0 m') /\ Rel st m' /\
                     (forall x, 0 <= x -> ~ Tm x -> rd m' x = rd m x).
   Proof.
-    intros Hc He (A & B & D & E). unfold cge in Hc.
-    assert (Hglob : forall x a, venv x = Some (LGlobal a) -> in_mem a = true /\ ~ Tm a).
-    { intros x a Hx. destruct (Hvar x _ Hx) as (H1 & H2 & _). cbn [addr_of] in *. split; [exact H1|]. intros Ht. apply H2. left. exact Ht. }
-    assert (Hframe : forall x k, venv x = Some (LFrame k) -> in_mem (sp + k) = true /\ ~ Tm (sp + k)).
-    { intros x k Hx. destruct (Hvar x _ Hx) as (H1 & H2 & _). cbn [addr_of] in *. split; [exact H1|]. intros Ht. apply H2. left. exact Ht. }
-    destruct (expr_runs venv pool size nslots ge P m0 lab sp off0 m A B HT_mem HT_P HT_1 Hpool Hglob Hframe
-                        e n off0 c n1 Hc ltac:(lia) f st v s He D) as [Hss (z & Hz & Hr & Hrun)].
-    split; [exact Hss|]. exists z. repeat split; try assumption.
-    intros pos nxt a b inp Hca Hp Hn. destruct (Hrun pos nxt a b inp Hca Hp Hn) as (b' & m' & Ht & Hk).
-    exists b', m'. split; [exact Ht|]. split.
-    - apply (Rel_scratch st m m'); [|exact (conj A (conj B (conj D E)))]. apply (keeps_scratch off0); [lia | exact Hk].
-    - intros x Hx Hnt. apply Hk; [exact Hx|]. exact Hnt.
+    intros Hc He HR. unfold cge in Hc.
+    destruct (run_expr_off off0 e n c n1 f st v s m ltac:(lia) Hc He HR) as [Hss (z & Hz & Hr & Hrun)].
+    split; [exact Hss|]. exists z. split; [exact Hz|]. split; [exact Hr | exact Hrun].
   Qed.
 
   (* ---- assignment *)
@@ -289,8 +411,15 @@ Section Correct.
     rd m' (addr_of l) = n mod W -> (forall a, 0 <= a -> a <> addr_of l -> rd m' a = rd m a) ->
     exists st', assign ge x n st = Ret Normal st' /\ Rel st' m' /\ post st st' [].
   Proof.
-    intros Hx Hn (A & B & [Hg Hf] & [E NV] & Q) Hw Hm.
+    intros Hx Hn (A & B & [[Hg Hf] HA] & [E NV] & Q) Hw Hm.
     destruct (Hvar x l Hx) as (Hin & Hns & HnP & Hn1).
+    (* the arrays are untouched: their words differ from the variable's *)
+    assert (HA' : arrs_ok st m').
+    { apply (arrs_ok_mem st m m'); [| |exact HA].
+      - intros a la Hal. destruct (Hawd a la Hal) as (Hi & _ & _ & _ & _ & Hd). apply Hm; [exact (proj1 (in_mem_range _ Hi))|].
+        intros Heq. exact (Hd x l Hx (eq_sym Heq)).
+      - intros c Hc. destruct (Hcell c Hc) as (Hi & _ & _ & _ & Hd). apply Hm; [exact (proj1 (in_mem_range _ Hi))|].
+        intros Heq. exact (Hd x l Hx (eq_sym Heq)). }
     destruct (stk st) as [|fr rest] eqn:Es; [exfalso; apply E; reflexivity|].
     assert (Htop : top st = fr) by (unfold top; rewrite Es; reflexivity).
     assert (HC' : Cm m').
@@ -302,6 +431,8 @@ Section Correct.
       destruct (Hg x ga Hx) as (N1 & N2 & N3 & v & Hv & _). rewrite Htop in N1, N2. rewrite N1, N2, N3, Hv.
       eexists. split; [reflexivity|]. split; [|unfold post, top; cbn; rewrite ?Es; repeat split].
       split; [exact HC'|]. split; [exact H1'|]. split; [|split; [split; [cbn; rewrite Es; discriminate | unfold novals, top in *; cbn; rewrite Es in *; exact NV] | unfold top in *; cbn; rewrite Es in *; exact Q]].
+      split; [|apply (arrs_ok_state st _ m'); [reflexivity | reflexivity | intros a la _; reflexivity | | exact HA'];
+               intros a Ha; cbn [gvars note_wr set_gvars set_cur]; apply assoc_update_none; exact Ha].
       split.
       + intros y a Hy. destruct (Hg y a Hy) as (M1 & M2 & M3 & w & Hw' & Hok).
         unfold top in *. cbn. rewrite Es in *. repeat split; try assumption.
@@ -328,6 +459,12 @@ Section Correct.
       split; [exact Hst'|]. split; [|unfold post, top; cbn; rewrite ?Es; repeat split].
       split; [exact HC'|]. split; [exact H1'|]. split; [|split; [split; [cbn; discriminate | unfold novals, top in *; cbn; rewrite Es in NV; exact NV] | unfold top in *; cbn; rewrite Es in Q; exact Q]].
       split.
+      2:{ apply (arrs_ok_state st _ m'); [reflexivity | unfold top; cbn [stk set_stk f_vals]; rewrite Es; reflexivity | | intros a Ha; exact Ha | exact HA'].
+          intros a la Hal. unfold top. cbn [stk set_stk f_vars]. rewrite Es. apply assoc_update_other. intros <-.
+          destruct HA' as [HA1 _]. destruct (HA1 x la Hal) as (g & Hres & _). unfold resolves in Hres. rewrite Htop in Hres.
+          destruct Hres as [Hr|(Hr & _)]; rewrite Hr in Hv; [|discriminate]. inversion Hv; subst v.
+          destruct Hvok as [Hu|(z & Hz & _)]; discriminate. }
+      split.
       + intros y a Hy. destruct (Hg y a Hy) as (M1 & M2 & M3 & w & Hw' & Hok).
         assert (Hne : x <> y) by (intros <-; rewrite Hx in Hy; discriminate).
         unfold top in *. cbn. rewrite Es in *. cbn [f_vars f_vals]. rewrite (assoc_update_other x y _ _ Hne).
@@ -347,7 +484,7 @@ Section Correct.
 
   (* ---- frame discipline: the net effect of the code on memory is confined to the temporaries, the outgoing
      area and the words of the variables in scope *)
-  Definition var_word (a : Z) : Prop := exists x l, venv x = Some l /\ a = addr_of l.
+  Definition var_word (a : Z) : Prop := (exists x l, venv x = Some l /\ a = addr_of l) \/ cell_of a.
   Definition frame_only (m m' : WMap.t) : Prop :=
     forall a, 0 <= a -> ~ scratch a -> ~ var_word a -> rd m' a = rd m a.
   Lemma frame_only_refl m : frame_only m m. Proof. intros a _ _ _. reflexivity. Qed.
@@ -360,7 +497,7 @@ Section Correct.
   Lemma frame_only_wr_var m x l v : venv x = Some l -> frame_only m (wr m (addr_of l) v).
   Proof.
     intros Hx a Ha _ Hnv. destruct (Hvar x l Hx) as (Hin & _).
-    apply rd_wr_other; [exact (proj1 (in_mem_range _ Hin)) | exact Ha | intros Heq; apply Hnv; exists x, l; split; [exact Hx | symmetry; exact Heq]].
+    apply rd_wr_other; [exact (proj1 (in_mem_range _ Hin)) | exact Ha | intros Heq; apply Hnv; left; exists x, l; split; [exact Hx | symmetry; exact Heq]].
   Qed.
 
   (* ---- the statement theorem *)
@@ -376,7 +513,7 @@ Section Correct.
     end.
 
   Lemma post_start st st0 st' o : same_store st st0 -> post st0 st' o -> post st st' o.
-  Proof. intros (_ & Hk & Ha & Ho & Hi & Hn) (H1 & H2 & H3 & H4 & H5 & H6). unfold post, top in *. rewrite <- Hk. repeat split; congruence. Qed.
+  Proof. intros (_ & Hk & Ha & Ho & Hi & Hn) (H1 & H2 & H3 & H5 & H6). unfold post, top in *. rewrite <- Hk. repeat split; congruence. Qed.
 
   Lemma result_ok_start st st0 r m pos nxt a b inp : same_store st st0 ->
     result_ok st0 r m pos nxt a b inp -> result_ok st r m pos nxt a b inp.
@@ -386,12 +523,12 @@ Section Correct.
     - intros (o & z & b' & m' & H0 & H0' & H1 & H2 & H3 & H4). exists o, z, b', m'.
       exact (conj H0 (conj H0' (conj H1 (conj H2 (conj (post_start _ _ _ _ Hs H3) H4))))).
     - intros (o & H1 & H2). exists o. split; [exact H1|]. destruct Hs as (_ & _ & Ha & Ho & Hi & Hn).
-      destruct H2 as (G1 & G2 & G3 & G4). unfold hpost. repeat split; congruence.
+      destruct H2 as (G1 & G2 & G3). unfold hpost. repeat split; congruence.
   Qed.
 
-  Notation cs' := (cs pinfo venv pool size nslots off0 og exitl).
-  Notation cge' := (cge venv pool size nslots off0).
-  Notation cgx' := (cgx pinfo venv pool size nslots off0 og).
+  Notation cs' := (cs pinfo venv pool size nslots aenv off0 og exitl).
+  Notation cge' := (cge venv pool size nslots aenv off0).
+  Notation cgx' := (cgx pinfo venv pool size nslots aenv off0 og).
 
   Lemma cge_pure e n r : cge' e n = Some r -> pure e = true.
   Proof. unfold cge. intros H. eapply cg_pure. exact H. Qed.
@@ -421,7 +558,7 @@ Section Correct.
     result_ok st (exec f ge s st) m pos nxt a b inp.
 
   Lemma seq_ok F : (forall f, (f < F)%nat -> stmt_ok f) ->
-    forall ss f, (f < F)%nat -> forall n code n' st, cs_list pinfo venv pool size nslots off0 og exitl ss n = Some (code, n') ->
+    forall ss f, (f < F)%nat -> forall n code n' st, cs_list pinfo venv pool size nslots aenv off0 og exitl ss n = Some (code, n') ->
     forall m pos nxt a b inp, Rel st m -> code_at Cm lab pos code nxt -> 0 <= pos -> nxt < W -> 0 <= lab exitl < W ->
     result_ok st (execs f ge ss st) m pos nxt a b inp.
   Proof.
@@ -430,7 +567,7 @@ Section Correct.
     - inversion Hcs; subst code n'. cbn [code_at] in Hc. subst nxt.
       exists [], a, b, m. exact (conj (runs_refl _ _) (conj HR (conj (post_refl st) (frame_only_refl m)))).
     - destruct (cs' x n) as [[c1 n1]|] eqn:E1; [|discriminate]. cbn [obind] in Hcs.
-      destruct (cs_list pinfo venv pool size nslots off0 og exitl r n1) as [[c2 n2]|] eqn:E2; [|discriminate]. cbn [obind] in Hcs.
+      destruct (cs_list pinfo venv pool size nslots aenv off0 og exitl r n1) as [[c2 n2]|] eqn:E2; [|discriminate]. cbn [obind] in Hcs.
       inversion Hcs; subst code n'. apply code_at_app in Hc. destruct Hc as (p1 & Hc1 & Hc2).
       pose proof (code_at_le _ _ _ _ _ Hc1) as L1. pose proof (code_at_le _ _ _ _ _ Hc2) as L2.
       pose proof (IH f0 ltac:(lia) x n c1 n1 st E1 m pos p1 a b inp HR Hc1 Hp ltac:(lia) Hex) as H1.
@@ -475,10 +612,11 @@ Section Correct.
     - exists sp. eapply run_store_sp; eassumption.
   Qed.
 
-  Lemma Rel_eqv st st' m : gvars st' = gvars st -> stk st' = stk st -> Rel st m -> Rel st' m.
+  Lemma Rel_eqv st st' m : gvars st' = gvars st -> stk st' = stk st -> garrs st' = garrs st -> Rel st m -> Rel st' m.
   Proof.
-    intros Hg Hk (A & B & [D1 D2] & E & Q). split; [exact A|]. split; [exact B|]. split.
+    intros Hg Hk Har (A & B & [[D1 D2] D3] & E & Q). split; [exact A|]. split; [exact B|]. split; [split|].
     - unfold vars_ok, top in *. rewrite Hg, Hk. split; assumption.
+    - apply (arrs_ok_state st st' m); [exact Har | unfold top; rewrite Hk; reflexivity | intros a l _; unfold top; rewrite Hk; reflexivity | intros a Ha; rewrite Hg; exact Ha | exact D3].
     - unfold novals, top in *. rewrite Hk. exact (conj E Q).
   Qed.
 
@@ -491,6 +629,76 @@ Section Correct.
   Lemma mod_256 x : (x mod W) mod 256 = x mod 256.
   Proof. symmetry. apply Znumtheory.Zmod_div_mod; [lia | unfold W; lia | exists 16777216; reflexivity]. Qed.
 
+  (* the address of an array's cells into breg *)
+  Lemma run_load_b l m p q a b inp :
+    code_at Cm lab p (gen_var RB l) q -> Cm m -> rd m 1 = sp -> in_mem (waddr sp l) = true -> q < W ->
+    taus inp (mk p a b 0 m) (mk q a (rd m (waddr sp l)) 0 m).
+  Proof.
+    intros Hc HC H1 Hin Hq. destruct l as [w|k]; cbn [gen_var ldm waddr] in *.
+    - one_instr Hc p1 Hi1. subst p1. exact (exec_instr Cm lab m p q (LDBM w) a b inp eq_refl Hi1 HC Hin Hq).
+    - one_instr Hc p1 Hi1. one_instr Hc p2 Hi2. subst p2. pose proof (instr_at_le _ _ _ _ _ Hi2) as L2.
+      pose proof (exec_instr Cm lab m p p1 (LDBM 1) a b inp eq_refl Hi1 HC eq_refl ltac:(lia)) as T1.
+      cbn [sem fst snd] in T1. rewrite H1 in T1.
+      assert (R2 : readable (LDBI k) a sp) by (cbn [readable]; rewrite (in_mem_wrap _ Hin); exact Hin).
+      pose proof (exec_instr Cm lab m p1 q (LDBI k) a sp inp eq_refl Hi2 HC R2 Hq) as T2.
+      cbn [sem fst snd] in T2. rewrite (in_mem_wrap _ Hin) in T2. eapply taus_trans; eassumption.
+  Qed.
+
+  Lemma cell_inj i j : 0 <= i -> 0 <= j -> cell i = cell j -> i = j.
+  Proof. unfold cell. intros Hi Hj H. apply Z2Pos.inj in H; lia. Qed.
+
+  Lemma assoc_update_some {A} x y (v : A) l : assoc y l <> None -> assoc y (update x v l) <> None.
+  Proof.
+    induction l as [|[z w] r IH]; cbn [assoc update]; [trivial|].
+    destruct (String.eqb x z) eqn:Ex; cbn [assoc]; destruct (String.eqb y z) eqn:Ey; try discriminate; auto.
+  Qed.
+
+  (* an element of the global array g is assigned: the state XSem's write_elem yields is related to the memory with
+     the cell written *)
+  Lemma asub_ok g ix v st m m' ar :
+    garr g = true -> in_int v = true -> Rel st m -> assoc g (garrs st) = Some ar -> 0 <= ix < alen ar ->
+    rd m' (abase g + ix) = v mod W -> (forall a, 0 <= a -> a <> abase g + ix -> rd m' a = rd m a) ->
+    Rel (note_wr g (set_garrs st (update g {| alen := alen ar; acells := PositiveMap.add (cell ix) (Vint v) (acells ar) |} (garrs st)))) m'.
+  Proof.
+    intros Hga Hv (A & B & [D [HA1 HA2]] & E & Q) Har Hix Hw Hm.
+    destruct (HA2 g Hga) as (Nv & Ng & ar0 & N3 & N4 & N6). rewrite Har in N3. inversion N3; subst ar0.
+    assert (Hc : cell_of (abase g + ix)) by (exists g, ix; split; [exact Hga|]; split; [rewrite <- N4; exact Hix | reflexivity]).
+    destruct (Hcell _ Hc) as (Cin & Cns & CnP & Cn1 & Cnv).
+    split; [|split; [|split; [split|exact (conj E Q)]]].
+    - intros a Ha0 HP. rewrite Hm; [apply A; assumption | exact Ha0|]. intros ->. exact (CnP HP).
+    - rewrite Hm; [exact B | lia | intros H; exact (Cn1 (eq_sym H))].
+    - (* the variables *)
+      apply (vars_ok_mem _ m m').
+      + intros y ly Hy. destruct (Hvar y ly Hy) as (Hin & _). apply Hm; [exact (proj1 (in_mem_range _ Hin))|]. exact (Cnv y ly Hy).
+      + destruct D as [D1 D2]. split; [intros y a Hy; exact (D1 y a Hy) | intros y k Hy; exact (D2 y k Hy)].
+    - split.
+      + (* the names *)
+        intros a l Hal. destruct (HA1 a l Hal) as (g1 & G1 & G2 & G3 & G4). destruct (Hawd a l Hal) as (Win & _ & _ & _ & Wnc & _).
+        exists g1. split; [|split; [exact G2|split; [|exact G4]]].
+        * unfold resolves in *. cbn [garrs set_garrs note_wr set_cur top stk f_vars f_vals].
+          destruct G1 as [G1|(K1 & K2 & K3 & K4)]; [left; exact G1|]. right. split; [exact K1|]. split; [exact K2|].
+          split; [apply assoc_update_some; exact K3 | exact K4].
+        * rewrite Hm; [exact G3 | exact (proj1 (in_mem_range _ Win))|]. intros Heq. apply Wnc. rewrite Heq. exact Hc.
+      + (* the cells *)
+        intros g1 Hg1. cbn [garrs set_garrs note_wr set_cur]. destruct (string_dec g g1) as [<-|Hne].
+        * split; [exact Nv|]. split; [exact Ng|].
+          exists {| alen := alen ar; acells := PositiveMap.add (cell ix) (Vint v) (acells ar) |}. cbn [alen acells].
+          split; [apply assoc_update_same; rewrite Har; discriminate|]. split; [exact N4|].
+          intros i n Hi Hf. destruct (Z.eq_dec i ix) as [->|Hni].
+          -- rewrite PositiveMap.gss in Hf. inversion Hf; subst n. split; [exact Hv | exact Hw].
+          -- rewrite PositiveMap.gso in Hf by (intros Hk; apply Hni; apply cell_inj in Hk; lia).
+             destruct (N6 i n Hi Hf) as [G1 G2]. split; [exact G1|]. rewrite Hm; [exact G2 | |lia].
+             assert (Hci : cell_of (abase g + i)) by (exists g, i; split; [exact Hga|]; split; [rewrite <- N4; exact Hi | reflexivity]).
+             destruct (Hcell _ Hci) as (Hin & _). exact (proj1 (in_mem_range _ Hin)).
+        * destruct (HA2 g1 Hg1) as (Mv & Mg & ar1 & M3 & M4 & M6). split; [exact Mv|]. split; [exact Mg|]. exists ar1.
+          split; [rewrite (assoc_update_other g g1 _ _ Hne); exact M3|]. split; [exact M4|].
+          intros i n Hi Hf. destruct (M6 i n Hi Hf) as [G1 G2]. split; [exact G1|].
+          assert (Hci : cell_of (abase g1 + i)) by (exists g1, i; split; [exact Hg1|]; split; [rewrite <- M4; exact Hi | reflexivity]).
+          destruct (Hcell _ Hci) as (Hin & _).
+          rewrite Hm; [exact G2 | exact (proj1 (in_mem_range _ Hin))|].
+          intros Heq. destruct (Hcinj g1 g i ix Hg1 Hga ltac:(rewrite <- M4; exact Hi) ltac:(rewrite <- N4; exact Hix) Heq) as [He _]. exact (Hne (eq_sym He)).
+  Qed.
+
   Lemma O_facts k : 0 <= k < og -> in_mem (sp + k) = true /\ ~ P (sp + k) /\ sp + k <> 1 /\ ~ Tm (sp + k) /\ scratch (sp + k) /\ 0 <= sp + k.
   Proof.
     intros Hk. assert (Ho : O (sp + k)) by (unfold O; lia). destruct (HO _ Ho) as (A & B & D & E).
@@ -498,12 +706,15 @@ Section Correct.
   Qed.
 
   (* ---- procedure calls *)
-  Notation cargs' := (cargs venv pool size nslots off0).
+  Notation cargs' := (cargs venv pool size nslots aenv off0).
+  Notation carg' := (carg venv pool size nslots aenv off0).
 
   (* actual i of vs sits in the outgoing word sp + k + i *)
+  (* an actual and the word that carries it: an integer, or a global array by the address of its cells *)
+  Definition arg_ok (v : value) (w : Z) : Prop :=
+    (exists z, v = Vint z /\ in_int z = true /\ w = z mod W) \/ (exists g, v = Varr g /\ garr g = true /\ w = abase g).
   Definition args_stored (vs : list value) (k : Z) (m : WMap.t) : Prop :=
-    forall i v, nth_error vs i = Some v ->
-      exists z, v = Vint z /\ in_int z = true /\ rd m (sp + k + Z.of_nat i) = z mod W.
+    forall i v, nth_error vs i = Some v -> arg_ok v (rd m (sp + k + Z.of_nat i)).
 
   (* what the callee must do, seen from the caller: entered at its entry label with the return address in areg and
      the actuals stored (from sp+1 for a procedure, from sp+2 for a function), it comes back to that address with the
@@ -532,7 +743,7 @@ Section Correct.
     intros Hs. destruct r as [v st'|c st'|u]; cbn [ret_ok]; trivial.
     - intros (o & a' & b' & m' & H1 & H2 & H3 & H4). exists o, a', b', m'. exact (conj H1 (conj H2 (conj (post_start _ _ _ _ Hs H3) H4))).
     - intros (o & H1 & H2). exists o. split; [exact H1|]. destruct Hs as (_ & _ & Ha & Ho & Hi & Hn).
-      destruct H2 as (G1 & G2 & G3 & G4). unfold hpost. repeat split; congruence.
+      destruct H2 as (G1 & G2 & G3). unfold hpost. repeat split; congruence.
   Qed.
   Lemma ret_ok_after_taus isf st r m m1 pos p1 nxt a b a1 b1 inp :
     taus inp (mk pos a b 0 m) (mk p1 a1 b1 0 m1) -> frame_only m m1 ->
@@ -544,12 +755,64 @@ Section Correct.
     - intros (o & H1 & H2). exists o. split; [eapply taus_exits; eassumption | exact H2].
   Qed.
 
+  Lemma carg_cases e n : (exists a l, e = EVar a /\ aenv a = Some l /\ carg' e n = Some (gen_var RA l, n)) \/ carg' e n = cge' e n.
+  Proof.
+    destruct e; try (right; reflexivity). unfold carg. destruct (aenv x) as [l|] eqn:E; [|right; reflexivity].
+    left. exists x, l. repeat split. exact E.
+  Qed.
+  Lemma carg_pure e n r : carg' e n = Some r -> pure e = true.
+  Proof.
+    destruct (carg_cases e n) as [(a & l & -> & _ & _)|Heq]; [reflexivity|]. rewrite Heq. apply cge_pure.
+  Qed.
   Lemma cargs_pure : forall args k n r, cargs' args k n = Some r -> forall e, In e args -> pure e = true.
   Proof.
     induction args as [|e0 r0 IH]; intros k n r Hc e Hin; [destruct Hin|]. cbn [cargs] in Hc.
-    destruct (cge' e0 n) as [[c n1]|] eqn:E1; [|discriminate]. cbn [obind] in Hc.
+    destruct (carg' e0 n) as [[c n1]|] eqn:E1; [|discriminate]. cbn [obind] in Hc.
     destruct (cargs' r0 (k + 1) n1) as [[cr n2]|] eqn:E2; [|discriminate].
-    destruct Hin as [<-|Hin]; [eapply cge_pure; exact E1 | eapply IH; eassumption].
+    destruct Hin as [<-|Hin]; [eapply carg_pure; exact E1 | eapply IH; eassumption].
+  Qed.
+
+  (* the address of an array's cells into areg *)
+  Lemma run_load_a l m p q a b inp :
+    code_at Cm lab p (gen_var RA l) q -> Cm m -> rd m 1 = sp -> in_mem (waddr sp l) = true -> q < W ->
+    exists b', taus inp (mk p a b 0 m) (mk q (rd m (waddr sp l)) b' 0 m).
+  Proof.
+    intros Hc HC H1 Hin Hq. destruct l as [w|k]; cbn [gen_var ldm waddr] in *.
+    - one_instr Hc p1 Hi1. subst p1. exists b. exact (exec_instr Cm lab m p q (LDAM w) a b inp eq_refl Hi1 HC Hin Hq).
+    - one_instr Hc p1 Hi1. one_instr Hc p2 Hi2. subst p2. pose proof (instr_at_le _ _ _ _ _ Hi2) as L2.
+      pose proof (exec_instr Cm lab m p p1 (LDAM 1) a b inp eq_refl Hi1 HC eq_refl ltac:(lia)) as T1.
+      cbn [sem fst snd] in T1. rewrite H1 in T1.
+      assert (R2 : readable (LDAI k) sp b) by (cbn [readable]; rewrite (in_mem_wrap _ Hin); exact Hin).
+      pose proof (exec_instr Cm lab m p1 q (LDAI k) sp b inp eq_refl Hi2 HC R2 Hq) as T2.
+      cbn [sem fst snd] in T2. rewrite (in_mem_wrap _ Hin) in T2. exists b. eapply taus_trans; eassumption.
+  Qed.
+
+  (* one actual: its value (an integer, or the address of an array's cells) into areg *)
+  Lemma run_arg e n c n1 f st v s m :
+    carg' e n = Some (c, n1) -> eval f ge e st = Ret v s -> Rel st m ->
+    same_store st s /\
+    exists w, arg_ok v w /\
+      forall pos nxt a b inp, code_at Cm lab pos c nxt -> 0 <= pos -> nxt < W ->
+      exists b' m', taus inp (mk pos a b 0 m) (mk nxt w b' 0 m') /\ Rel st m' /\
+                    (forall x, 0 <= x -> ~ Tm x -> rd m' x = rd m x).
+  Proof.
+    intros Hc He HR. destruct (carg_cases e n) as [(a0 & l & -> & Hal & Hcg)|Heq].
+    - (* the name of an array *)
+      rewrite Hcg in Hc. inversion Hc; subst c n1.
+      pose proof HR as (HC & H1 & [_ [HA1 HA2]] & _). destruct (HA1 a0 l Hal) as (g & Hres & Hg & Hw & _).
+      destruct (Hawd a0 l Hal) as (Win & _).
+      apply eval_var in He. unfold read_var in He. unfold resolves in Hres.
+      assert (Hv : v = Varr g /\ s = st).
+      { destruct Hres as [Hr|(K1 & K2 & K3 & ->)].
+        - rewrite Hr in He. inversion He. split; reflexivity.
+        - destruct (HA2 a0 Hg) as (K4 & K5 & _). rewrite K1, K2, K4, K5 in He.
+          destruct (assoc a0 (garrs st)); [inversion He; split; reflexivity | exfalso; apply K3; reflexivity]. }
+      destruct Hv as [-> ->]. split; [apply same_store_refl|].
+      exists (abase g). split; [right; exists g; repeat split; exact Hg|].
+      intros pos nxt a b inp Hca Hp Hn. destruct (run_load_a l m pos nxt a b inp Hca HC H1 Win Hn) as (b' & T).
+      rewrite Hw in T. exists b', m. split; [exact T|]. split; [exact HR | intros; reflexivity].
+    - rewrite Heq in Hc. destruct (run_expr e n c n1 f st v s m Hc He HR) as [Hss (z & -> & Hz & Hrun)].
+      split; [exact Hss|]. exists (z mod W). split; [left; exists z; repeat split; exact Hz | exact Hrun].
   Qed.
 
   Lemma run_args : forall args k n c n1 f st L s m,
@@ -566,12 +829,12 @@ Section Correct.
       intros pos nxt a b inp Hca Hp Hn. cbn [code_at] in Hca. subst nxt.
       exists a, b, m. split; [apply taus_refl|]. split; [exact HR|]. split; [intros; reflexivity|].
       intros i v Hi. destruct i; discriminate.
-    - destruct (cge' e n) as [[c1 n2]|] eqn:E1; [|discriminate]. cbn [obind] in Hc.
+    - destruct (carg' e n) as [[c1 n2]|] eqn:E1; [|discriminate]. cbn [obind] in Hc.
       destruct (cargs' r (k + 1) n2) as [[cr n3]|] eqn:E2; [|discriminate]. cbn [obind] in Hc. inversion Hc; subst c n1.
       destruct (evals_cons _ _ _ _ _ _ _ He) as (f1 & v & sl & L' & -> & Ee & Er & ->).
       cbn [List.length] in Hlen. rewrite Nat2Z.inj_succ in Hlen.
       assert (HR1 : Rel (set_cur st eff0) m) by (eapply Rel_same; [apply same_store_set_cur | exact HR]).
-      destruct (run_expr e n c1 n2 f1 _ v sl m E1 Ee HR1) as [Hss (z & -> & Hz & Hrun)].
+      destruct (run_arg e n c1 n2 f1 _ v sl m E1 Ee HR1) as [Hss (w & Hw & Hrun)].
       assert (S2 : same_store st (set_cur sl (eff_union (cur st) (cur sl)))).
       { eapply same_store_trans; [apply (same_store_set_cur st eff0)|]. eapply same_store_trans; [exact Hss | apply same_store_set_cur]. }
       destruct (O_facts k ltac:(lia)) as (Oin & OnP & On1 & OnT & Os & Opos).
@@ -586,22 +849,20 @@ Section Correct.
         clear Hca. destruct Hsp as (p2 & Hc2 & Hc3).
         pose proof (code_at_le _ _ _ _ _ Hc1) as L1. pose proof (code_at_le _ _ _ _ _ Hc2) as L2. pose proof (code_at_le _ _ _ _ _ Hc3) as L3.
         destruct (Hrun pos p1 a b inp Hc1 Hp ltac:(lia)) as (b1 & m1 & T1 & HRm1 & Hk1).
-        pose proof (run_store_sp k m1 p1 p2 (z mod W) b1 inp Hc2 (proj1 HRm1) (proj1 (proj2 HRm1)) Oin ltac:(lia)) as T2.
-        set (m2 := wr m1 (sp + k) (z mod W)) in *.
+        pose proof (run_store_sp k m1 p1 p2 w b1 inp Hc2 (proj1 HRm1) (proj1 (proj2 HRm1)) Oin ltac:(lia)) as T2.
+        set (m2 := wr m1 (sp + k) w) in *.
         assert (HR2 : Rel (set_cur sl (eff_union (cur st) (cur sl))) m2).
         { apply Rel_wr_scratch; [exact Os | exact Opos|]. eapply Rel_same; [|exact HRm1]. eapply same_store_trans; [exact Hss | apply same_store_set_cur]. }
         destruct (IH (k + 1) n2 cr n3 f1 _ L' s m2 E2 Er HR2 ltac:(lia) ltac:(lia)) as [Hs3 Hrun3].
-        destruct (Hrun3 p2 nxt (z mod W) sp inp Hc3 ltac:(lia) Hn) as (a3 & b3 & m3 & T3 & HR3 & Hk3 & Hst3).
+        destruct (Hrun3 p2 nxt w sp inp Hc3 ltac:(lia) Hn) as (a3 & b3 & m3 & T3 & HR3 & Hk3 & Hst3).
         exists a3, b3, m3. split; [eapply taus_trans; [exact T1|]; eapply taus_trans; [exact T2 | exact T3]|].
         split; [eapply Rel_same; [apply same_store_sym; exact S2 | exact HR3]|].
         split.
         * intros x Hx HnT Hnr. cbn [List.length] in Hnr. rewrite Nat2Z.inj_succ in Hnr. rewrite Hk3; [|exact Hx | exact HnT | lia].
           unfold m2. rewrite rd_wr_other; [|exact Opos | exact Hx | lia]. apply Hk1; assumption.
-        * intros i v Hi. destruct i as [|j]; cbn [map fst nth_error] in Hi.
-          -- inversion Hi; subst v. exists z. split; [reflexivity|]. split; [exact Hz|].
-             rewrite Z.add_0_r. rewrite Hk3; [|exact Opos | exact OnT | lia]. unfold m2. apply rd_wr_same.
-          -- destruct (Hst3 j v Hi) as (zz & -> & Hzz & Hrd). exists zz. split; [reflexivity|]. split; [exact Hzz|].
-             rewrite <- Hrd. f_equal. lia.
+        * intros i v0 Hi. destruct i as [|j]; cbn [map fst nth_error] in Hi.
+          -- inversion Hi; subst v0. rewrite Z.add_0_r. rewrite Hk3; [|exact Opos | exact OnT | lia]. unfold m2. rewrite rd_wr_same. exact Hw.
+          -- pose proof (Hst3 j v0 Hi) as Hrd. replace (sp + k + Z.of_nat (S j)) with (sp + (k + 1) + Z.of_nat j) by lia. exact Hrd.
   Qed.
 
   (* ---- calls: the actuals, branch and link, and what the callee's specification gives at the link address *)
@@ -903,6 +1164,119 @@ Section Correct.
       + exact HR'.
       + pose proof (post_trans _ _ _ _ _ P1 Hpost) as Q. rewrite app_nil_r in Q. exact Q.
       + eapply frame_only_trans; [exact F1 | eapply frame_only_wr_var; exact Ex].
+    - (* assignment to an array element:  index; base; ADD; save the address; value; reload the address; STAI 0 *)
+      destruct (aenv x) as [la|] eqn:Ea; [|discriminate]. cbn [obind] in Hcs.
+      destruct ((0 <=? off0) && (off0 <? nslots)) eqn:Eoff; [|discriminate].
+      apply andb_prop in Eoff. destruct Eoff as [Eo1 Eo2]. apply Z.leb_le in Eo1. apply Z.ltb_lt in Eo2.
+      destruct (cge' i n) as [[ci n1]|] eqn:Eci; [|discriminate]. cbn [obind] in Hcs.
+      destruct (cg venv pool size nslots aenv e RA n1 (off0 + 1)) as [[ce n2]|] eqn:Ece; [|discriminate]. cbn [obind] in Hcs.
+      inversion Hcs; subst code n'.
+      apply code_at_app in Hc. destruct Hc as (p1 & Hc1 & Hc). apply code_at_app in Hc. destruct Hc as (p2 & Hc2 & Hc).
+      assert (Hsplit : exists p3, code_at Cm lab p2 [ADD; LDBM 1; STAI (size - 1 - off0)] p3 /\
+                                  code_at Cm lab p3 (ce ++ [LDBM 1; LDBI (size - 1 - off0); STAI 0]) nxt).
+      { apply (code_at_app Cm lab [ADD; LDBM 1; STAI (size - 1 - off0)]). exact Hc. }
+      clear Hc. destruct Hsplit as (p3 & Hc3 & Hc). apply code_at_app in Hc. destruct Hc as (p4 & Hc4 & Hc5).
+      assert (Hsp3 : exists q1, code_at Cm lab p2 [ADD] q1 /\ code_at Cm lab q1 [LDBM 1; STAI (size - 1 - off0)] p3).
+      { apply (code_at_app Cm lab [ADD] [LDBM 1; STAI (size - 1 - off0)]). exact Hc3. }
+      clear Hc3. destruct Hsp3 as (q1 & Hc30 & Hc3). one_instr Hc30 q1' Hi31. subst q1'.
+      one_instr Hc5 q2 Hi51. one_instr Hc5 q3 Hi52. one_instr Hc5 q4 Hi53. subst q4.
+      pose proof (code_at_le _ _ _ _ _ Hc1) as L1. pose proof (code_at_le _ _ _ _ _ Hc2) as L2. pose proof (instr_at_le _ _ _ _ _ Hi31) as L31.
+      pose proof (code_at_le _ _ _ _ _ Hc3) as L3. pose proof (code_at_le _ _ _ _ _ Hc4) as L4.
+      pose proof (instr_at_le _ _ _ _ _ Hi51) as L51. pose proof (instr_at_le _ _ _ _ _ Hi52) as L52. pose proof (instr_at_le _ _ _ _ _ Hi53) as L53.
+      (* the array *)
+      pose proof HR0 as (_ & _ & [_ [HA0 HB0]] & _).
+      destruct (HA0 x la Ea) as (g & Hres0 & Hg & N5 & _).
+      destruct (HB0 g Hg) as (_ & _ & ar & N3 & N4 & N6).
+      rewrite (resolves_array ge st0 x g Hres0). cbn [bind rcase].
+      assert (Hpi : pure i = true) by (eapply cg_pure; exact Eci).
+      assert (Hpe : pure e = true) by (eapply cg_pure; exact Ece).
+      destruct (operands (evals f0 ge) [i; e] st0) as [vs s1|hc hs|u] eqn:Eo; cbn [bind rcase]; [| |exact I].
+      2:{ exfalso. unfold operands in Eo. apply bind_halt in Eo. destruct Eo as [Eo|(L & s1 & _ & Eo)].
+          - refine (evals_no_halt ge [i; e] _ f0 st0 hc hs Eo). intros e0 [<-|[<-|[]]];
+              [exact (pure_no_halt ge i Hpi) | exact (pure_no_halt ge e Hpe)].
+          - destruct (conflicts (map snd L)); discriminate. }
+      apply operands_ret in Eo. destruct Eo as (L & Eo & ->).
+      destruct (evals_two _ _ _ _ _ _ _ Eo) as (f1 & f2 & vl & st1 & sl & vr & st2 & sr & S0 & E1 & S1 & E2 & HL & S2). rewrite HL.
+      (* the index *)
+      destruct (run_expr i n ci n1 f1 st1 vl sl m Eci E1 (Rel_same _ _ _ S0 HR0)) as [Hss1 (ix & -> & Hix & Hrun1)].
+      destruct (Hrun1 pos p1 a b inp Hc1 Hp ltac:(lia)) as (b1 & m1 & T1 & HR1 & Hk1).
+      (* the value (known to XSem before the store, so the spec side first) *)
+      assert (HR12 : forall mm, Rel st1 mm -> Rel st2 mm) by (intros mm Hm; eapply Rel_same; [|exact Hm]; eapply same_store_trans; [exact Hss1 | exact S1]).
+      cbn [int_of].
+      (* the machine: base, ADD, save *)
+      destruct (Hawd x la Ea) as (Win & _).
+      pose proof HR1 as (HC1 & H11 & [_ [HA1 _]] & _).
+      destruct (HA1 x la Ea) as (g1 & Hres1 & _ & Hb1 & _).
+      assert (g1 = g).
+      { pose proof (resolves_array ge _ _ _ (resolves_same _ _ _ _ S0 Hres0)) as E0. pose proof (resolves_array ge _ _ _ Hres1) as E1'.
+        rewrite E0 in E1'. inversion E1'. reflexivity. }
+      subst g1.
+      pose proof (run_load_b la m1 p1 p2 (ix mod W) b1 inp Hc2 HC1 H11 Win ltac:(lia)) as T2. rewrite Hb1 in T2.
+      pose proof (exec_instr Cm lab m1 p2 q1 ADD (ix mod W) (abase g) inp eq_refl Hi31 HC1 I ltac:(lia)) as T3. cbn [sem fst snd] in T3.
+      assert (Hslot : in_mem (sp + (size - 1 - off0)) = true /\ Tm (sp + (size - 1 - off0))).
+      { destruct HT_mem as [G1 G2]. unfold T, tlo, fb in *. split; [|lia]. unfold in_mem. apply andb_true_intro.
+        split; [apply Z.leb_le | apply Z.ltb_lt]; lia. }
+      destruct Hslot as [Sin ST].
+      set (addr := wrap (ix mod W + abase g)) in *.
+      pose proof (run_store_sp (size - 1 - off0) m1 q1 p3 addr (abase g) inp Hc3 HC1 H11 Sin ltac:(lia)) as T4.
+      set (m2 := wr m1 (sp + (size - 1 - off0)) addr) in *.
+      assert (HR2 : Rel st2 m2).
+      { apply Rel_wr_scratch; [left; exact ST | exact (proj1 (in_mem_range _ Sin)) | exact (HR12 m1 HR1)]. }
+      (* the value *)
+      destruct (run_expr_off (off0 + 1) e n1 ce n2 f2 st2 vr sr m2 ltac:(lia) Ece E2 HR2) as [Hss2 (v & -> & Hv & Hrun2)].
+      destruct (Hrun2 p3 p4 addr sp inp Hc4 ltac:(lia) ltac:(lia)) as (b3 & m3 & T5 & HR3 & Hk3).
+      cbn [int_of].
+      (* XSem writes the element *)
+      assert (Hg1 : garrs s1 = garrs st0).
+      { destruct S0 as (_ & _ & A0 & _). destruct Hss1 as (_ & _ & A1 & _). destruct S1 as (_ & _ & A2 & _).
+        destruct Hss2 as (_ & _ & A3 & _). destruct S2 as (_ & _ & A4 & _). congruence. }
+      unfold write_elem. rewrite Hg1, N3.
+      destruct ((0 <=? ix) && (ix <? alen ar)) eqn:Eb; [|exact I].
+      apply andb_prop in Eb. destruct Eb as [Eb1 Eb2]. apply Z.leb_le in Eb1. apply Z.ltb_lt in Eb2.
+      (* the address *)
+      assert (Hc : cell_of (abase g + ix)) by (exists g, ix; split; [exact Hg|]; split; [lia | reflexivity]).
+      destruct (Hcell _ Hc) as (Cin & Cns & CnP & Cn1 & Cnv).
+      assert (Haddr : addr = abase g + ix).
+      { unfold addr. assert (Hixw : ix mod W = ix).
+        { apply Z.mod_small. pose proof (in_mem_range _ Cin) as R1.
+          assert (Hc0 : cell_of (abase g + 0)) by (exists g, 0; split; [exact Hg|]; split; [lia | reflexivity]).
+          destruct (Hcell _ Hc0) as (Cin0 & _). pose proof (in_mem_range _ Cin0) as R0. unfold MEMW, W in *. lia. }
+        rewrite Hixw. replace (ix + abase g) with (abase g + ix) by lia. exact (in_mem_wrap _ Cin). }
+      (* reload the address, store *)
+      pose proof HR3 as (HC3 & H13 & _).
+      pose proof (exec_instr Cm lab m3 p4 q2 (LDBM 1) (v mod W) b3 inp eq_refl Hi51 HC3 eq_refl ltac:(lia)) as T6.
+      cbn [sem fst snd] in T6. rewrite H13 in T6.
+      assert (R7 : readable (LDBI (size - 1 - off0)) (v mod W) sp) by (cbn [readable]; rewrite (in_mem_wrap _ Sin); exact Sin).
+      pose proof (exec_instr Cm lab m3 q2 q3 (LDBI (size - 1 - off0)) (v mod W) sp inp eq_refl Hi52 HC3 R7 ltac:(lia)) as T7.
+      cbn [sem fst snd] in T7. rewrite (in_mem_wrap _ Sin) in T7.
+      assert (Hsl : rd m3 (sp + (size - 1 - off0)) = addr).
+      { rewrite (Hk3 _ (proj1 (in_mem_range _ Sin))); [unfold m2; apply rd_wr_same|]. unfold tlo, fb. lia. }
+      rewrite Hsl, Haddr in T7.
+      assert (Hw0 : wrap (abase g + ix + 0) = abase g + ix) by (rewrite Z.add_0_r; exact (in_mem_wrap _ Cin)).
+      assert (R8 : readable (STAI 0) (v mod W) (abase g + ix)) by (cbn [readable]; rewrite Hw0; exact Cin).
+      pose proof (exec_instr Cm lab m3 q3 nxt (STAI 0) (v mod W) (abase g + ix) inp eq_refl Hi53 HC3 R8 Hn) as T8.
+      cbn [sem fst snd] in T8. rewrite Hw0 in T8.
+      set (m4 := wr m3 (abase g + ix) (v mod W)) in *.
+      cbn [result_ok].
+      exists [], (v mod W), (abase g + ix), m4. split; [|split; [|split]].
+      + cbn [map]. eapply taus_trans; [exact T1|]. eapply taus_trans; [exact T2|]. eapply taus_trans; [exact T3|].
+        eapply taus_trans; [exact T4|]. eapply taus_trans; [exact T5|]. eapply taus_trans; [exact T6|].
+        eapply taus_trans; [exact T7 | exact T8].
+      + assert (HRs : Rel s1 m3) by (eapply Rel_same; [|exact HR3]; eapply same_store_trans; [exact Hss2 | exact S2]).
+        rewrite <- Hg1 in N3. rewrite <- Hg1.
+        apply (asub_ok g ix v s1 m3 m4 ar Hg Hv HRs N3 ltac:(lia)); [unfold m4; apply rd_wr_same|].
+        intros y Hy Hne. unfold m4. apply rd_wr_other; [exact (proj1 (in_mem_range _ Cin)) | exact Hy | congruence].
+      + destruct S0 as (_ & K0 & _ & B0 & C0 & D0). destruct Hss1 as (_ & K1 & _ & B1 & C1 & D1).
+        destruct S1 as (_ & K2 & _ & B2 & C2 & D2). destruct Hss2 as (_ & K3 & _ & B3 & C3 & D3).
+        destruct S2 as (_ & K4 & _ & B4 & C4 & D4).
+        assert (Hstk : stk s1 = stk st0) by congruence.
+        unfold post, top. cbn. rewrite Hstk. repeat split; congruence.
+      + eapply frame_only_trans; [apply frame_only_T; exact Hk1|].
+        eapply frame_only_trans; [apply (frame_only_wr_scratch m1 _ addr (or_introl ST) (proj1 (in_mem_range _ Sin)))|].
+        eapply frame_only_trans.
+        * intros y Hy Hns _. apply Hk3; [exact Hy|]. intros Hr. apply Hns. left. unfold T. unfold tlo, fb in *. lia.
+        * intros y Hy _ Hnv. unfold m4. apply rd_wr_other; [exact (proj1 (in_mem_range _ Cin)) | exact Hy|].
+          intros Heq. apply Hnv. right. rewrite <- Heq. exact Hc.
     - (* procedure call:  actuals; LDAP link; BR entry; link: *)
       destruct (pinfo g) as [pi|] eqn:Epi; [|discriminate]. cbn [obind] in Hcs.
       destruct (pf_isfunc pi) eqn:Eisf; [discriminate|].
@@ -1017,6 +1391,7 @@ Section Correct.
         * apply (Rel_eqv sr).
           -- cbn. exact (proj1 S2).
           -- cbn. exact (proj1 (proj2 S2)).
+          -- cbn. exact (proj1 (proj2 (proj2 S2))).
           -- eapply Rel_same; [exact Hss2|]. exact (conj HC4 (conj H14 (conj HV4 HS4))).
         * destruct S0 as (_ & K0 & A0 & B0 & C0 & D0). destruct Hss1 as (_ & K1 & A1 & B1 & C1 & D1).
           destruct S1 as (_ & K2 & A2 & B2 & C2 & D2). destruct Hss2 as (_ & K3 & A3 & B3 & C3 & D3).
@@ -1074,8 +1449,8 @@ Definition no_free : Z -> Prop := fun _ => False.
 Definition any_depth : nat -> Prop := fun _ => True.
 
 Theorem stmt_correct :
-  forall (venv : string -> option loc) (pool : Z -> option Z) (size nslots off0 og : Z) (exitl : label) (ge : genv)
-         (P : Z -> Prop) (m0 : WMap.t) (lab : label -> Z) (sp : Z),
+  forall (venv aenv : string -> option loc) (garr : string -> bool) (abase alen_of : string -> Z) (pool : Z -> option Z)
+         (size nslots off0 og : Z) (exitl : label) (ge : genv) (P : Z -> Prop) (m0 : WMap.t) (lab : label -> Z) (sp : Z),
     0 <= tlo size nslots sp /\ fb size sp - off0 < MEMW ->
     (forall a, T size nslots sp off0 a -> ~ P a) ->
     ~ T size nslots sp off0 1 ->
@@ -1085,9 +1460,16 @@ Theorem stmt_correct :
     (forall x l, venv x = Some l ->
        in_mem (addr_of sp l) = true /\ ~ scratch no_free size nslots off0 og sp (addr_of sp l) /\ ~ P (addr_of sp l) /\ addr_of sp l <> 1) ->
     (forall x y lx ly, venv x = Some lx -> venv y = Some ly -> x <> y -> addr_of sp lx <> addr_of sp ly) ->
-    forall f, stmt_ok no_procs no_free any_depth venv pool size nslots off0 og exitl ge P m0 lab sp f.
+    (forall a l, aenv a = Some l ->
+       in_mem (waddr sp l) = true /\ ~ scratch no_free size nslots off0 og sp (waddr sp l) /\ ~ P (waddr sp l) /\ waddr sp l <> 1 /\
+       ~ cell_of garr abase alen_of (waddr sp l) /\ (forall x lx, venv x = Some lx -> addr_of sp lx <> waddr sp l)) ->
+    (forall c, cell_of garr abase alen_of c ->
+       in_mem c = true /\ ~ scratch no_free size nslots off0 og sp c /\ ~ P c /\ c <> 1 /\ (forall x lx, venv x = Some lx -> addr_of sp lx <> c)) ->
+    (forall g g' i i', garr g = true -> garr g' = true -> 0 <= i < alen_of g -> 0 <= i' < alen_of g' ->
+       abase g + i = abase g' + i' -> g = g' /\ i = i') ->
+    forall f, stmt_ok no_procs no_free any_depth venv aenv garr abase alen_of pool size nslots off0 og exitl ge P m0 lab sp f.
 Proof.
-  intros venv pool size nslots off0 og exitl ge P m0 lab sp H1 H2 H3 H4 H5 H6 H7 H8 f.
+  intros venv aenv garr abase alen_of pool size nslots off0 og exitl ge P m0 lab sp H1 H2 H3 H4 H5 H6 H7 H8 H9 H10 H11 f.
   apply stmt_correct_calls; try assumption.
   - intros a [].
   - intros p pi Hp. discriminate Hp.
